@@ -18,6 +18,7 @@ CONSTANTS
   EndForms <- Set012
   LabelStmts = TRUE
   Contains = TRUE
+  Randomised = TRUE
 INVARIANT WellNested
 INVARIANT LabelsUnique
 INVARIANT Needs08Sound
